@@ -40,6 +40,8 @@ type tpkt struct {
 	sentOn  string
 	recvOn  map[string]bool
 	ackedOn map[string]bool
+	recvH   uint64 // proof height of the accepted receive on the destination
+	ackH    uint64 // proof height of the accepted acknowledgement on the source
 }
 
 type PacketGen struct {
@@ -473,6 +475,136 @@ func (g *PacketGen) Run(nOps int) {
 			g.opClean()
 		default:
 			g.opRecvClean()
+		}
+	}
+}
+
+// RunDeep: one channel used heavily — 10-16 packets in one direction, received and acknowledged
+// out of order, cleans at every boundary around the acknowledged prefix, replays after cleaning.
+// (Sequences with two or more decimal digits, interleavings of cleans with outstanding packets.)
+func (g *PacketGen) RunDeep() {
+	w := g.w
+	a, b := w.Chains[0], w.Chains[1]
+	w.Connect(a, b)
+	w.Connect(b, a)
+	n := 10 + g.r.Intn(7)
+	for i := 0; i < n; i++ {
+		data, tok := g.randData()
+		seq := a.App.TIBCKeeper.PacketKeeper.GetNextSequenceSend(a.GetContext(), a.ChainName, b.ChainName)
+		p := packettypes.NewPacket(data, seq, a.ChainName, b.ChainName, "", "tibcmock")
+		if w.KSend(a, p, tok) == nil {
+			g.pkts = append(g.pkts, &tpkt{p: p, tok: tok, sentOn: a.ChainName, recvOn: map[string]bool{}, ackedOn: map[string]bool{}})
+		}
+	}
+	perm := func(k int) []int {
+		idx := make([]int, k)
+		for i := range idx {
+			idx[i] = i
+		}
+		for i := k - 1; i > 0; i-- {
+			j := g.r.Intn(i + 1)
+			idx[i], idx[j] = idx[j], idx[i]
+		}
+		return idx
+	}
+	// receive most of them, out of order
+	w.Update(b, a)
+	for _, i := range perm(len(g.pkts)) {
+		if g.r.Chance(85) {
+			t := g.pkts[i]
+			h := w.ClientLatest(b, a.ChainName)
+			ps := ProofSpec{Kind: "honest", Chain: a.ChainName, Height: h, Key: "commit", Src: t.p.SourceChain, Dst: t.p.DestinationChain, Seq: t.p.Sequence}
+			res := w.Recv(b, g.r.Intn(3), t.p, t.tok, ps, h)
+			g.stat("deep.recv." + ErrClass(res.Codespace, res.Code))
+			if res.Code == 0 {
+				t.recvOn[b.ChainName] = true
+				t.ack = writtenAck(res)
+				t.recvH = h
+			}
+		}
+	}
+	// acknowledge a random subset, out of order; interleave cleans
+	w.Update(a, b)
+	tryClean := func() {
+		var maxSeq uint64 = uint64(len(g.pkts))
+		N := uint64(1 + g.r.Intn(int(maxSeq)+1))
+		// boundary-directed choices: around the highest acknowledged sequence and the first
+		// unacknowledged one
+		var maxAcked, firstUnacked uint64
+		for _, t := range g.pkts {
+			if t.ackedOn[a.ChainName] {
+				if t.p.Sequence > maxAcked {
+					maxAcked = t.p.Sequence
+				}
+			} else if firstUnacked == 0 || t.p.Sequence < firstUnacked {
+				firstUnacked = t.p.Sequence
+			}
+		}
+		switch g.r.Intn(8) {
+		case 0, 1:
+			N = maxAcked
+		case 2:
+			N = maxAcked + 1
+		case 3:
+			if firstUnacked > 1 {
+				N = firstUnacked - 1
+			}
+		case 4:
+			N = firstUnacked
+		case 5:
+			if maxAcked > firstUnacked && firstUnacked > 0 {
+				N = firstUnacked + uint64(g.r.Intn(int(maxAcked-firstUnacked)+1))
+			}
+		}
+		cp := packettypes.NewCleanPacket(N, a.ChainName, b.ChainName, "")
+		res := w.Clean(a, g.r.Intn(3), cp)
+		g.stat("deep.clean." + ErrClass(res.Codespace, res.Code))
+		if res.Code == 0 && g.r.Chance(70) {
+			w.Update(b, a)
+			h := w.ClientLatest(b, a.ChainName)
+			ps := ProofSpec{Kind: "honest", Chain: a.ChainName, Height: h, Key: "clean", Src: a.ChainName, Dst: b.ChainName}
+			r2 := w.RecvClean(b, g.r.Intn(3), cp, ps, h)
+			g.stat("deep.recvclean." + ErrClass(r2.Codespace, r2.Code))
+		}
+	}
+	for _, i := range perm(len(g.pkts)) {
+		t := g.pkts[i]
+		if t.ack != nil && g.r.Chance(75) {
+			h := w.ClientLatest(a, b.ChainName)
+			ps := ProofSpec{Kind: "honest", Chain: b.ChainName, Height: h, Key: "ack", Src: t.p.SourceChain, Dst: t.p.DestinationChain, Seq: t.p.Sequence}
+			res := w.Ack(a, g.r.Intn(3), t.p, t.tok, t.ack, ps, h)
+			g.stat("deep.ack." + ErrClass(res.Codespace, res.Code))
+			if res.Code == 0 {
+				t.ackedOn[a.ChainName] = true
+				t.ackH = h
+			}
+		}
+		if g.r.Chance(35) {
+			tryClean()
+		}
+	}
+	for k := 0; k < 6; k++ {
+		tryClean()
+	}
+	// replays after cleaning: the *original* messages (old proof heights still have consensus
+	// states on the receiving client, and the old proofs are still genuine for those heights)
+	for _, t := range g.pkts {
+		if t.recvH != 0 && g.r.Chance(60) {
+			ps := ProofSpec{Kind: "honest", Chain: a.ChainName, Height: t.recvH, Key: "commit", Src: t.p.SourceChain, Dst: t.p.DestinationChain, Seq: t.p.Sequence}
+			res := w.Recv(b, g.r.Intn(3), t.p, t.tok, ps, t.recvH)
+			g.stat("deep.replay-recv." + ErrClass(res.Codespace, res.Code))
+		}
+		if t.ackH != 0 && g.r.Chance(40) {
+			ps := ProofSpec{Kind: "honest", Chain: b.ChainName, Height: t.ackH, Key: "ack", Src: t.p.SourceChain, Dst: t.p.DestinationChain, Seq: t.p.Sequence}
+			res := w.Ack(a, g.r.Intn(3), t.p, t.tok, t.ack, ps, t.ackH)
+			g.stat("deep.replay-ack." + ErrClass(res.Codespace, res.Code))
+		}
+	}
+	for k := 0; k < 10; k++ {
+		if g.r.Chance(50) {
+			g.opRecv()
+		} else {
+			g.opAck()
 		}
 	}
 }
